@@ -126,8 +126,9 @@ Section ZHandler.
   Variable meof : M -> bool.
   Variable mflush : M -> option bytes.
 
-  Record zh := mkZh { z_mode : N; z_d : M; z_pending : option bytes; z_last_empty : bool }.
-  Definition zh_new (mode : N) : zh := mkZh mode (mnew mode) None false.
+  (* z_mid = mid_stream (db20ae1): input has been consumed since the last complete member *)
+  Record zh := mkZh { z_mode : N; z_d : M; z_pending : option bytes; z_last_empty : bool; z_mid : bool }.
+  Definition zh_new (mode : N) : zh := mkZh mode (mnew mode) None false false.
 
   (* the while loop of _decompress_members; `rest` = remaining[pos:], out = b"".join(parts).
      Result: decompressor, _pending_unused_data, output.  None = an exception (zlib.error or
@@ -159,6 +160,7 @@ Section ZHandler.
   (* decompress_sync(data, max_length) *)
   Definition zh_step (z : zh) (data : bytes) (maxlen : N) : hres :=
     let data1 := match z_pending z with Some p => p ++ data | None => data end in
+    let fed := negb (isnil data1) || negb (isnil (mtail (z_d z))) in
     match mdec (z_d z) (mtail (z_d z) ++ data1) maxlen with
     | None => HErr
     | Some (d1, r) =>
@@ -169,13 +171,18 @@ Section ZHandler.
       | None => HErr
       | Some None => HFuel
       | Some (Some (d2, pend, out)) =>
+        (* `if fed or self.mid_stream: self.mid_stream = not self._decompressor.eof`, before the gzip reset *)
+        let mid := if fed || z_mid z then negb (meof d2) else z_mid z in
         let d3 := if dg_gzip_reset (meof d2) (z_mode z) 15 then mnew (z_mode z) else d2 in
-        HOk (mkZh (z_mode z) d3 pend (isnil out)) out
+        HOk (mkZh (z_mode z) d3 pend (isnil out) mid) out
       end
     end.
   Definition zh_avail (z : zh) : bool :=
     negb (isnil (mtail (z_d z))) || negb (z_last_empty z) || match z_pending z with Some _ => true | None => false end.
   Definition zh_eof (z : zh) : bool := meof (z_d z).
+  (* DeflateBuffer.feed_eof's stream-end checks pass: not (deflate and not eof) and not mid_stream *)
+  Definition zh_complete (z : zh) : bool :=
+    negb ((negb (dg_gzip_reset true (z_mode z) 15) && negb (meof (z_d z))) || z_mid z).
   Definition zh_flush (z : zh) : option bytes := mflush (z_d z).
 End ZHandler.
 
@@ -193,7 +200,7 @@ Section Sys.
   Variable hnew : N -> H.                                   (* ZLibDecompressor(mode): 31 gzip, 15 zlib, 0 raw *)
   Variable hstep : H -> bytes -> N -> option (option (H * bytes)).   (* None = raises; Some None = fuel *)
   Variable havail : H -> bool.                              (* data_available *)
-  Variable heof : H -> bool.                                (* .eof *)
+  Variable heof : H -> bool.                                (* feed_eof's stream-end checks pass: not (deflate and not .eof) and not .mid_stream *)
   Variable hflush : H -> option bytes.                      (* .flush(); None = raises *)
 
   Record cfg := mkCfg { c_limit : N; c_lax : bool; c_maxline : N; c_maxfield : N; c_maxtrailers : N;
@@ -324,7 +331,7 @@ Section Sys.
     | None => (s, Some ECodecFlush)
     | Some c =>
       if negb (isnil c) then (s, Some EAssertion)
-      else if (0 <? d_size d) && (d_enc d =? 2) && negb (heof (d_h d)) then (s, Some EContentEncoding)
+      else if (0 <? d_size d) && negb (heof (d_h d)) then (s, Some EContentEncoding)
       else (rd_feed_eof s, None)
     end.
 
@@ -763,7 +770,7 @@ Definition toy_hstep (z : toy_zh) (data : bytes) (maxlen : N) : option (option (
   match zh_step tm tm_new tm_dec t_tail t_unused tm_eof z data maxlen with
   | HErr _ => None | HFuel _ => Some None | HOk _ z' out => Some (Some (z', out)) end.
 Definition toy_havail (z : toy_zh) : bool := zh_avail tm t_tail z.
-Definition toy_heof (z : toy_zh) : bool := zh_eof tm tm_eof z.
+Definition toy_heof (z : toy_zh) : bool := zh_complete tm tm_eof z.
 Definition toy_hflush (z : toy_zh) : option bytes := zh_flush tm tm_flush z.
 
 Definition toy_sys := sys toy_zh.
